@@ -15,6 +15,7 @@ func main() {
 		harness.Layer{Name: "assumptions", Run: assumptions},
 		harness.Layer{Name: "ingress", Run: layerIngress},
 		harness.Layer{Name: "directed", Run: layerDirected},
+		harness.Layer{Name: "stalled", Run: layerStalled},
 		harness.Layer{Name: "cluster", Run: layerCluster},
 	)
 }
